@@ -4,8 +4,6 @@ pub struct VarContainer { _p: core::marker::PhantomData<u8> }
 #[verifier::external_body]
 pub struct StdRng { _p: core::marker::PhantomData<u8> }
 // slice -> Vec conversion (`.into()` has no vstd spec): outlined, the body is the expression
-#[verifier::external_body]
-fn __o_slice_to_vec(s: &[Term]) -> (r: Vec<Term>) ensures r@ == s@ { s.into() }
 // ASSUMED: Vec<Term> == Vec<Term> is element-wise equality of the wrapped numbers (derived PartialEq of Term)
 #[verifier::external_body]
 fn __o_terms_eq(a: &Vec<Term>, b: &Vec<Term>) -> (r: bool) ensures r == (a@ == b@) { a == b }
